@@ -363,3 +363,70 @@ Fixpoint trace_ok_from (c : cas) (b : blobs) (g : mon) (tr : list (op * out)) : 
 
 Definition trace_ok (c : cas) (b : blobs) (tr : list (op * out)) : bool :=
   trace_ok_from c b mon_init tr.
+
+(* ---- The identity given to the stateless handle allocator -------------------- *)
+
+(* What NewDigestFromProto accepts: lower-case hexadecimal hash, size >= 0. *)
+Definition valid_digest (d : digest) : Prop :=
+  all_chars is_lower_hex (fst d) = true /\ (0 <= snd d)%Z.
+
+(* [idents]: for every leaf created through StatelessHandleAllocator.New, a
+   token that is equal for two leaves exactly when the allocator was given
+   the same bytes (for the NFSv4 allocator: the leaves are one file, the
+   first one created is what every name shows).  C17 needs: two CAS backed
+   files the monitor knows (their digest and executable bit were checked
+   against the Directory messages when they were learnt) share a token only
+   when they are the same file -- otherwise which executable bit a name
+   shows depends on what was explored first.  The converse is what the
+   decorator exists for: the same (digest, executable bit) always gets the
+   same token. *)
+Definition ident_pair (idents : list (nat * N)) (lvs : list (nat * leafkind)) (l1 l2 : nat) : string :=
+  match aget l1 lvs, aget l2 lvs with
+  | Some (KCas d1 x1), Some (KCas d2 x2) =>
+    match aget l1 idents, aget l2 idents with
+    | Some t, Some u =>
+      let same := digest_eqb d1 d2 && Bool.eqb x1 x2 in
+      if N.eqb t u
+      then if same then "" else "C17:handle-identity-shared-by-different-files"
+      else if same then "C17:handle-identity-not-stateless" else ""
+    | _, _ => ""
+    end
+  | _, _ => ""
+  end.
+
+(* leaf [l] against every leaf of [all] *)
+Fixpoint ident_one (idents : list (nat * N)) (lvs : list (nat * leafkind)) (l : nat)
+    (all : list (nat * leafkind)) : string :=
+  match all with
+  | [] => ""
+  | e :: r =>
+    let k := ident_pair idents lvs l (fst e) in
+    if String.eqb k "" then ident_one idents lvs l r else k
+  end.
+
+Fixpoint ident_new (idents : list (nat * N)) (lvs : list (nat * leafkind))
+    (new : list (nat * leafkind)) : string :=
+  match new with
+  | [] => ""
+  | e :: r =>
+    let k := ident_one idents lvs (fst e) lvs in
+    if String.eqb k "" then ident_new idents lvs r else k
+  end.
+
+(* After a step that took the monitor's memory from [g] to [g']: the leaves
+   learnt by this step against all known leaves. *)
+Definition p_ident (idents : list (nat * N)) (g g' : mon) : string :=
+  ident_new idents (mon_leaves g')
+    (firstn (List.length (mon_leaves g') - List.length (mon_leaves g)) (mon_leaves g')).
+
+Fixpoint ident_ok_from (c : cas) (b : blobs) (idents : list (nat * N)) (g : mon)
+    (tr : list (op * out)) : bool :=
+  match tr with
+  | [] => true
+  | (o, x) :: r =>
+    let g' := snd (p_step c b g o x) in
+    String.eqb (p_ident idents g g') "" && ident_ok_from c b idents g' r
+  end.
+
+Definition ident_trace_ok (c : cas) (b : blobs) (idents : list (nat * N)) (tr : list (op * out)) : bool :=
+  ident_ok_from c b idents mon_init tr.
